@@ -1085,8 +1085,41 @@ fn c03_untouched_tree() -> Option<(String, String)> {
     r
 }
 
+/// a target with a very large input tree (15 000 files: its record exceeds a megabyte) is skipped on an untouched
+/// tree like any other
+fn c03_large_input_tree() -> Option<(String, String)> {
+    let p = Proj::new("c03big");
+    for i in 0..15000 {
+        write(&p.root.join(format!("big/d{:02}/input-file-{:05}.dat", i % 50, i)), b"");
+    }
+    write(&p.root.join("small/a.txt"), b"a");
+    p.write_yml("zinoma.yml", &format!("targets:\n  big:\n    input: [{{paths: [big]}}]\n    build: '{}'\n  small:\n    input: [{{paths: [small]}}]\n    build: '{}'\n", p.quick("big"), p.quick("small")));
+    let mut runs = vec![];
+    for _ in 0..3 {
+        let before = p.trace_lines().len();
+        let c = p.spawn(&["big", "small"]);
+        let e = wait_end(c, 120);
+        if e.timed_out || e.code != Some(0) {
+            p.cleanup();
+            return Some(("run failed".into(), format!("{:?} {}", e.code, e.stderr.lines().rev().take(3).collect::<Vec<_>>().join(" | "))));
+        }
+        let mut new: Vec<String> = p.trace_lines()[before..].iter().filter(|l| l.starts_with("start ")).cloned().collect();
+        new.sort();
+        runs.push(new);
+    }
+    let rec = std::fs::metadata(p.root.join(".zinoma/big.checksums")).map(|m| m.len()).unwrap_or(0);
+    p.cleanup();
+    if runs[0] != vec!["start big".to_string(), "start small".to_string()] {
+        return Some(("first run did not execute every target".to_string(), format!("{:?}", runs[0])));
+    }
+    if !runs[1].is_empty() || !runs[2].is_empty() {
+        return Some(("an untouched tree was rebuilt: target with a very large input tree".to_string(), format!("second run {:?}, third run {:?}; record of `big` has {} bytes", runs[1], runs[2], rec)));
+    }
+    None
+}
+
 pub fn bind_c03(rep: &mut Report) {
-    let sc: Vec<Scenario> = vec![("untouched multi-project tree, same command text in two projects", c03_untouched_tree)];
+    let sc: Vec<Scenario> = vec![("a target with 15 000 input files", c03_large_input_tree), ("untouched multi-project tree, same command text in two projects", c03_untouched_tree)];
     run_scenarios(rep, "C03", sc);
 }
 
